@@ -38,6 +38,9 @@ GEN_SPEC = {"imports": ["From God Require Import C12.GenEnv."], "items": [
     {"kind": "calls", "file": "lib/store/redis/scriptcache.go", "func": "ScriptCache.GetSha", "as": "sc_GetSha_calls"},
     {"kind": "calls", "file": "lib/store/redis/scriptcache.go", "func": "ScriptCache.SetSha", "as": "sc_SetSha_calls"},
 ]}
+CHUNK = 250          # cases per driver process (bounds whatever a long-lived driver process accumulates)
+PARALLEL = 4         # driver processes at a time
+RETRY_MAX = 60       # suspects re-run in a fresh process
 QUICK_N = 130
 THOROUGH_N = 3000
 SEARCH_N = 60
@@ -62,7 +65,14 @@ TRUSTED = ["miniredis v2.23.1 as the server semantics of the twin runs (the theo
            "harness/c12gen (own translator: go/parser -> C12_Table.v) and the raw side of the drivers "
            "(internal/verifdrv/c12raw.go), which restates the documented correspondence in Go",
            "int = int64 (64-bit platform): CInt is the identity"]
-ASSUMPTIONS = ["raw_err_zero: go-redis returns the zero value together with any error (hypothesis of c12_transparent)",
+ASSUMPTIONS = ["differential histories (redis and kv) run the wrappers with a breaker that never rejects (redis.VerifNeverReject / the "
+               "recording pass-through breaker): server errors and expired contexts count as breaker failures by design and would "
+               "make the real breaker reject at random; the breaker clauses are checked on the breaker and runs streams with the "
+               "real breaker",
+               "drive(): %d cases per driver process, %d processes at a time; the drivers close the wrapper's cached go-redis "
+               "clients after every case (redis.VerifResetClients); a case whose wrapper met a connection-level error its raw twin "
+               "did not meet is re-run once in a fresh process and the second observation counts" % (CHUNK, PARALLEL),
+               "raw_err_zero: go-redis returns the zero value together with any error (hypothesis of c12_transparent)",
                "key_local + total deterministic owner function (C13) for c12_shard_equiv / c12_multidel; SPop/SRandMember "
                "(server-side randomness) are compared on the single-server twin only",
                "blocking BLPop* compared only when an element is present; GeoHash unsupported by miniredis (table only)",
@@ -559,23 +569,77 @@ def search(rng, problems):
     return cases
 
 
+
+
+def _env_suspect(case, obs):
+    """a connection-level error that hit the wrapper but not the raw twin (or a driver-level error): possibly the
+    environment (descriptors, ports, a listener that was not up yet) -- to be re-run once in a fresh process"""
+    if obs is None or "error" in obs or "driver_panic" in obs:
+        return True
+    if case["kind"] == "runs":
+        return any(e == "Other:conn" for run in obs.get("runs", []) for e, _ in run)
+    if case["kind"] in ("breaker", "sha"):
+        return False
+    return any("skip" not in st and st["w"]["e"] == "Other:conn" and st["r"]["e"] != "Other:conn" for st in obs.get("steps", []))
+
+
+def _run_chunks(jobs, tag):
+    """jobs: list of (pkg, [case indices]); runs every job in its own driver process, PARALLEL at a time.
+    Returns {index: obs} or (None, log)."""
+    import concurrent.futures as cf
+
+    def one(job):
+        k, (pkg, idx, cs_) = job
+        o, lg = vlib.run_driver(pkg, cs_, name="C12_%s_%s_%d" % (pkg.split("/")[-1], tag, k), timeout=DRIVER_TIMEOUT)
+        return pkg, idx, o, lg
+
+    out, logs = {}, []
+    with cf.ThreadPoolExecutor(max_workers=PARALLEL) as ex:
+        for pkg, idx, o, lg in ex.map(one, list(enumerate(jobs))):
+            logs.append(lg[-2000:])
+            if o is None:
+                return None, "\n".join(logs)
+            for i, x in zip(idx, o):
+                out[i] = x
+    return out, "\n".join(logs)
+
+
 def drive(cases, tier):
-    """redis cases -> lib/store/redis driver, kv cases -> lib/store/kv driver; results merged in order."""
+    """redis cases -> lib/store/redis driver, kv cases -> lib/store/kv driver, in chunks of CHUNK cases per driver
+    process (PARALLEL processes at a time); results merged in order.  A case whose wrapper met a connection-level error
+    that its raw twin did not meet is re-run ONCE in a fresh process and the second observation is the one that counts:
+    a regression reproduces (and is reported as usual), an environment hiccup does not."""
     groups = {GO_PKG: [], KV_PKG: []}
     for i, c in enumerate(cases):
         groups[KV_PKG if c["kind"] == "kv" else GO_PKG].append(i)
-    obs = [None] * len(cases)
-    logs = []
+    jobs = []
     for pkg, idx in groups.items():
-        if not idx:
-            continue
-        o, lg = vlib.run_driver(pkg, [cases[i] for i in idx], name="C12_%s_%s" % (pkg.split("/")[-1], tier), timeout=DRIVER_TIMEOUT)
-        logs.append(lg[-3000:])
-        if o is None:
-            return None, "\n".join(logs)
-        for i, x in zip(idx, o):
-            obs[i] = x
-    return obs, "\n".join(logs)
+        for k in range(0, len(idx), CHUNK):
+            part = idx[k:k + CHUNK]
+            jobs.append((pkg, part, [cases[i] for i in part]))
+    jobs.sort(key=lambda j: -len(j[1]))
+    res, log = _run_chunks(jobs, tier)
+    if res is None:
+        return None, log
+    obs = [res[i] for i in range(len(cases))]
+    suspects = [i for i in range(len(cases)) if _env_suspect(cases[i], obs[i])]
+    if suspects:
+        todo = suspects[:RETRY_MAX]
+        rjobs = []
+        for pkg in (GO_PKG, KV_PKG):
+            part = [i for i in todo if (cases[i]["kind"] == "kv") == (pkg == KV_PKG)]
+            for k in range(0, len(part), 20):
+                rjobs.append((pkg, part[k:k + 20], [cases[i] for i in part[k:k + 20]]))
+        res2, log2 = _run_chunks(rjobs, tier + "_retry")
+        log += "\n" + log2
+        if res2 is not None:
+            again = 0
+            for i, x in res2.items():
+                obs[i] = x
+                again += 1 if _env_suspect(cases[i], x) else 0
+            vlib.log("C12 drive: %d case(s) with a wrapper-only connection error, %d re-run in a fresh process: %d clean, %d reproduced"
+                     % (len(suspects), len(todo), len(todo) - again, again))
+    return obs, log
 
 
 # ------------------------------------------------------------------------------------- encoding
